@@ -104,12 +104,15 @@ fn pass_2_internal(segment: &Segment, common_context: &CommonContext) -> Result<
                 }
             }
             Item::Data(item_type, items) => {
-                let data = match item_type {
+                let data = match match item_type {
                     DataDefine::Db => items.get_bytes(common_context),
                     DataDefine::Dw => items.get_words(common_context),
                     DataDefine::Dd => items.get_double_words(common_context),
                     DataDefine::Dq => items.get_quad_words(common_context),
-                }?;
+                } {
+                    Ok(data) => data,
+                    Err(e) => bail!("{}, {}", e, line),
+                };
                 cur_address += if let SegmentType::Code = segment.t {
                     data.len() as u32 / 2
                 } else {
@@ -147,7 +150,10 @@ fn pass_2_internal(segment: &Segment, common_context: &CommonContext) -> Result<
                 }
             }
             Item::Set(name, expr) => {
-                let value = expr.run(common_context)?;
+                let value = match expr.run(common_context) {
+                    Ok(value) => value,
+                    Err(e) => bail!("{}, {}", e, line),
+                };
                 // names are matched without regard to letter case
                 let name = &name.to_lowercase();
                 if common_context.exist(name) {
